@@ -624,9 +624,11 @@ class Real(PackedOps, RandOps):
         summation order unless EVERY partial sum is exact.  Sufficient: all valid values are multiples of
         2^-K and the sum of their magnitudes stays below 2^24 * 2^-K.  Otherwise the exact model cannot
         predict the rounding and the history is discarded from here (`inexact`)."""
-        # (dtype compared by kind and size: a map read from a file is big-endian float32)
-        if red not in ('sum', 'mean', 'std', 'wmean') or m.is_rec_array or m.dtype.kind != 'f' or m.dtype.itemsize != 4:
+        # (dtype compared by kind and size: a map read from a file is big-endian float32; the same test with 2^53
+        #  for float64 maps, whose values can carry many bits after arithmetic with long scalars)
+        if red not in ('sum', 'mean', 'std', 'wmean') or m.is_rec_array or m.dtype.kind != 'f':
             return False
+        lim = 2 ** 24 if m.dtype.itemsize == 4 else 2 ** 53
         sp = np.asarray(m._sparse_map)
         vals = sp[sp != m._sentinel]
         if vals.size == 0:
@@ -636,7 +638,33 @@ class Real(PackedOps, RandOps):
         total = sum(abs(n) * (K // d) for n, d in ratios)
         if red == 'wmean':
             total *= 32          # products with the weights (magnitude < 8, two fractional bits)
-        return total >= 2 ** 24
+        return total >= lim
+
+    @staticmethod
+    def wmean_unsafe(m, w, red):
+        """weighted mean: the exact model predicts it only while every product x*w and both sums are exact in
+        float64 (a map used as its own weight map squares its values)"""
+        if red != 'wmean' or w is None or m.is_rec_array or m.is_wide_mask_map:
+            return False
+        vp = m.valid_pixels
+        if vp.size == 0:
+            return False
+        xs = np.asarray(m.get_values_pix(vp), dtype=np.float64)
+        ws = np.asarray(w.get_values_pix(vp), dtype=np.float64)
+        K, tot, totw = 0, 0, 0
+        prods = []
+        for x, y in zip(xs.tolist(), ws.tolist()):
+            if not (np.isfinite(x) and np.isfinite(y)):
+                continue
+            nx, dx = float(x).as_integer_ratio()
+            ny, dy_ = float(y).as_integer_ratio()
+            prods.append((abs(nx * ny), dx * dy_, abs(ny), dy_))
+        if not prods:
+            return False
+        K = max(max(d for _, d, _, _ in prods), max(d for _, _, _, d in prods))
+        tot = sum(n * (K // d) for n, d, _, _ in prods)
+        totw = sum(n * (K // d) for _, _, n, d in prods)
+        return tot >= 2 ** 53 or totw >= 2 ** 53
 
     @staticmethod
     def prod_range_unsafe(m, red, ordout):
@@ -665,7 +693,8 @@ class Real(PackedOps, RandOps):
         w = self.m(kv['w']) if 'w' in kv else None
         self.pool[kv['r']] = m.degrade(2 ** int(kv['ord']), reduction=kv.get('red', 'mean'), weights=w)
         if self.f4_sum_unsafe(m, kv.get('red', 'mean')) or self.prod_range_unsafe(m, kv.get('red', 'mean'),
-                                                                                   int(kv['ord'])):
+                                                                                   int(kv['ord'])) \
+                or self.wmean_unsafe(m, w, kv.get('red', 'mean')):
             return 'inexact'
         return 'ok'
 
@@ -821,8 +850,15 @@ class Real(PackedOps, RandOps):
                 src = HealSparseMap.read(self.files[kv.get('f', 'f')])
             except Exception:
                 src = None
+            wsrc = None
+            if src is not None and 'wf' in kv:
+                try:
+                    wsrc = HealSparseMap.read(self.files[kv['wf']])
+                except Exception:
+                    wsrc = None
             if src is not None and (self.f4_sum_unsafe(src, kv.get('red', 'mean')) or
-                                    self.prod_range_unsafe(src, kv.get('red', 'mean'), int(kv['ord']))):
+                                    self.prod_range_unsafe(src, kv.get('red', 'mean'), int(kv['ord'])) or
+                                    self.wmean_unsafe(src, wsrc, kv.get('red', 'mean'))):
                 return 'inexact'
         return 'ok'
 
